@@ -143,6 +143,11 @@ FNAMES = ("default", "explicit")
 # explicit names whose LAST COMPONENT CONTAINS A DOT, given as Path or as str, each with a neighbouring name that differs
 # only by the dotted tail and is used side by side (ops `at nb …`): (primary, as Path?, neighbour, as Path?)
 DOTTED = {"dotted": ("relax.v2", True, "relax", False), "dotted5": ("T_0.5", False, "T_0", True)}
+# explicit names with GLOB METACHARACTERS in the last component, each with a neighbouring name that the primary name, read
+# as a glob pattern, would match (`scan[1]` ~ `scan1`, `run*x` ~ `runAx`, `T?` ~ `T1`); as file names they are unrelated
+GLOBBY = {"glob": ("scan[1]", False, "scan1", True), "globstar": ("run*x", True, "runAx", False),
+          "globq": ("T?", False, "T1", False)}
+PAIRS = {**DOTTED, **GLOBBY}  # every layout with two explicit names in one directory (ops `at nb …`)
 # how the class of the loading node is related to the class of the saved node (which relations exist per graph kind)
 RELS = {
     "wf": ("same", "samename", "diffname", "sub", "diffcomp"),
@@ -396,6 +401,30 @@ def gen_cases(rng, tier):
             hist = [rng.choice(al) if rng.random() < 0.6 else rng.choice(d_setups + [["load"], ["at", "nb", "load"], ["retry"]])
                     for _ in range(rng.randint(3, 8))]
             yield _case(g, fn, _number(hist))
+    # explicit names with GLOB METACHARACTERS ([ ] * ?), each side by side with a name the first one would match as a
+    # pattern: both names saved (plain / cloudpickle / interrupted = with leftovers), then every op under either name --
+    # in particular the deletes (seeded C19-12: a sweep by unescaped glob misses its own files and hits the neighbour's)
+    for fn, g in ((("glob", "wf"), ("globq", "fn"), ("globstar", "wf")) if tier == "quick"
+                  else tuple((fn, g) for fn in GLOBBY for g in GRAPHS)):
+        al = [x for x in _alphabet(g) if not (x[0] == "foreign" and len(x) == 3)] + _nb_alphabet()
+        own = [["save", "ok"], ["save", "pf"], ["crash", "ok", 3], ["crash", "pf", 5]]
+        other = [["at", "nb", "save", "ok"], ["at", "nb", "save", "pf"], ["at", "nb", "crash", "ok", 3]]
+        closers = [["delete"], ["at", "nb", "delete"], ["load"], ["at", "nb", "load"], ["reopen"], ["save", "ok"]]
+        for a in al:
+            yield _case(g, fn, _number([a]))
+        for a in own:
+            for b in other:
+                for c in (closers if tier == "quick" else al):
+                    yield _case(g, fn, _number([a, b, c]))
+                    yield _case(g, fn, _number([b, a, c]))
+        for a in own + other:
+            for c in closers:
+                yield _case(g, fn, _number([a, c]))
+                yield _case(g, fn, _number([a, c, ["at", "nb", "load"], ["load"]]))
+        for _ in range(40 if tier == "quick" else 800):
+            hist = [rng.choice(al) if rng.random() < 0.5 else rng.choice(own + other + closers + [["retry"]])
+                    for _ in range(rng.randint(3, 8))]
+            yield _case(g, fn, _number(hist))
     # nested nodes, checkpoints, recovery files (Workflow graph, default location): every op alone, every op after each
     # of a few set-ups (good saves in the different stores), every op followed by each delete / load -- thorough: all pairs
     tree_a, tree_all, main_al = _tree_alphabet(("a",)), _tree_alphabet(), _alphabet("wf")
@@ -520,6 +549,11 @@ def corpus():
         yield _case("wf", fn, [["save", "ok", 1], ["save", "pf", 2], ["load"], ["save", "ok", 3], ["load"]])
         yield _case("wf", fn, [["save", "ok", 1], ["at", "nb", "save", "ok", 2], ["load"], ["at", "nb", "load"],
                                ["at", "nb", "save", "pf", 3], ["load"], ["at", "nb", "delete"], ["load"]])
+    # C19-12: names with glob metacharacters; both names saved, one with a leftover; delete either
+    for fn in GLOBBY:
+        yield _case("wf", fn, [["save", "ok", 1], ["at", "nb", "save", "ok", 2], ["delete"], ["at", "nb", "load"], ["load"]])
+        yield _case("wf", fn, [["at", "nb", "save", "pf", 1], ["crash", "ok", 2, 3, "mid"], ["delete"], ["at", "nb", "load"],
+                               ["at", "nb", "delete"], ["load"]])
     # C19-5: the last good save is a .cpckl; a save with the per-call flag cloudpickle_fallback=False fails (content pickle
     # cannot do / node class not importable) or is interrupted -- the .cpckl must survive
     for g in ("wf", "fac", "old"):
@@ -556,8 +590,8 @@ class _Store:
             # `StorageInterface._parse_filename`: <lexical path>/<name of the back end's class, lower case>
             self.base = "picklestorage" if self.backend is None else type(self.backend).__name__.lower()
             self.kw = {}
-        elif fname in DOTTED:
-            prim, as_path, nb, nb_as_path = DOTTED[fname]
+        elif fname in PAIRS:
+            prim, as_path, nb, nb_as_path = PAIRS[fname]
             self.root = cwd / "xdir"
             self.base = prim
             self.kw = {"filename": Path("xdir") / prim if as_path else f"xdir/{prim}"}
@@ -583,13 +617,25 @@ class _Store:
                             (("pckl", "pckl"), ("cpckl", "cpckl"), ("pckl.tmp", "pt"), ("cpckl.tmp", "ct"))}
         # two explicit names in one directory: the files keyed by the FULL primary name are the main columns, those
         # keyed by the neighbouring name the `rec` columns (whatever the library makes of the dotted tail)
-        self.two_names = fname in DOTTED
+        self.two_names = fname in PAIRS
         if self.two_names:
-            nb = DOTTED[fname][2]
+            nb = PAIRS[fname][2]
             self.rec_names = {f"{nb}.{suf}": f"r.{sl}" for suf, sl in
                               (("pckl", "pckl"), ("cpckl", "cpckl"), ("pckl.tmp", "pt"), ("cpckl.tmp", "ct"))}
             if self.backend is not None:
                 self.nb_kw = {**self.nb_kw, "backend": self.backend}
+
+    @staticmethod
+    def _role(table, n):
+        """the slot of file name `n` by ROLE: a final name is itself; anything that starts with a final name and ends in
+        `.tmp` is a temporary of that final name, however the library spells the middle (pid, counter, random)"""
+        if n in table:
+            return table[n]
+        if n.endswith(".tmp"):
+            for final, sl in table.items():
+                if not final.endswith(".tmp") and n.startswith(final) and final + ".tmp" in table:
+                    return table[final + ".tmp"]
+        return None
 
     def slot(self, path) -> str | None:
         """slot name of a path inside the store, '' for the directory itself, None if elsewhere"""
@@ -599,18 +645,33 @@ class _Store:
             return ""
         n = os.path.basename(p)
         if os.path.dirname(p) == r:
-            if (self.nested or self.two_names) and n in self.rec_names:
-                return self.rec_names[n]
+            if (self.nested or self.two_names) and self._role(self.rec_names, n) is not None:
+                return self._role(self.rec_names, n)
             if self.nested and n in CHILDREN:
                 return n
-            return self.names.get(n, "?" + n)
+            return self._role(self.names, n) or "?" + n
         if self.nested and os.path.dirname(os.path.dirname(p)) == r and os.path.basename(os.path.dirname(p)) in CHILDREN:
             ch = os.path.basename(os.path.dirname(p))
-            return f"{ch}." + self.child_names.get(n, "?" + n)
+            return f"{ch}." + (self._role(self.child_names, n) or "?" + n)
         return None
 
     def files_of(self, which):
-        """{slot: path} of store `which` (main | rec | a | b)"""
+        """{slot: path} of store `which` (main | rec | a | b): the final names literally, the temporaries by role (an
+        existing file of that role if there is one)"""
+        lit = self._files_literal(which)
+        table = {"main": self.names, "rec": self.rec_names, "nb": self.rec_names}.get(which, self.child_names)
+        d = next(iter(lit.values())).parent
+        if d.is_dir():
+            for n in sorted(os.listdir(d)):
+                if n.endswith(".tmp") and not any(n == os.path.basename(x) for x in lit.values()):
+                    sl = self._role(table, n)
+                    if sl is not None:
+                        sl = sl.split(".")[-1]
+                        if sl in lit and not lit[sl].exists():
+                            lit[sl] = d / n
+        return lit
+
+    def _files_literal(self, which):
         if which == "main":
             return {sl: self.root / nm for nm, sl in self.names.items()}
         if which in ("rec", "nb"):
@@ -697,11 +758,12 @@ class _Tracer:
         self.events.append(name)
 
     # ---- wrappers
-    def _wrap(self, orig, namer, marker=False, cleanup=False):
+    def _wrap(self, orig, namer, marker=False, cleanup=False, removes=False):
         """`marker`: a call that only LOOKS at a directory of the store (listing it); `cleanup`: a call that removes a
         directory.  Either means the save proper is over and its clean-up has begun -- however the library goes about
         it (list-then-remove, or just try to remove): an interrupted save (cut pending) dies there.  A removal that is
-        refused (not empty, not there) changes nothing and is not an event."""
+        refused (not empty, not there) changes nothing and is not an event; neither is the removal (`removes`) of a
+        file that is not there (`unlink(missing_ok=True)` and `if exists: unlink` are the same thing)."""
         tr = self
 
         def wrapper(*a, **k):
@@ -716,6 +778,7 @@ class _Tracer:
                 if marker:
                     return orig(*a, **k)
             tr.before()
+            there = (not removes) or os.path.lexists(os.fspath(a[0]))
             tr._depth += 1
             ok = False
             try:
@@ -724,7 +787,9 @@ class _Tracer:
                 return res
             finally:
                 tr._depth -= 1
-                if ok or not cleanup:
+                if not there:
+                    tr.count += 1  # a call the save makes, but not an event anybody could see
+                elif ok or not cleanup:
                     tr.after(name)
 
         return wrapper
@@ -773,13 +838,13 @@ class _Tracer:
 
         setp(st, "open", self._open(builtins.open))
         setp(Path, "mkdir", self._wrap(Path.mkdir, one("mkdir")))
-        setp(Path, "unlink", self._wrap(Path.unlink, one("unlink")))
+        setp(Path, "unlink", self._wrap(Path.unlink, one("unlink"), removes=True))
         setp(Path, "rmdir", self._wrap(Path.rmdir, one("rmdir"), cleanup=True))
         setp(Path, "replace", self._wrap(Path.replace, two("replace")))
         setp(Path, "rename", self._wrap(Path.rename, two("rename")))
         setp(Path, "iterdir", self._wrap(Path.iterdir, one("iterdir"), marker=True))
-        setp(os, "unlink", self._wrap(os.unlink, one("unlink")))
-        setp(os, "remove", self._wrap(os.remove, one("unlink")))
+        setp(os, "unlink", self._wrap(os.unlink, one("unlink"), removes=True))
+        setp(os, "remove", self._wrap(os.remove, one("unlink"), removes=True))
         setp(os, "rmdir", self._wrap(os.rmdir, one("rmdir"), cleanup=True))
         setp(os, "replace", self._wrap(os.replace, two("replace")))
         setp(os, "rename", self._wrap(os.rename, two("rename")))
@@ -1016,9 +1081,9 @@ def _fs_obs(store, kind):
     from . import nodes_c19 as nc
 
     d = {"dir": 1 if store.root.is_dir() else 0}
-    inv = {v: k for k, v in store.names.items()}
+    fm = store.files_of("main")
     for slot in ("pckl", "cpckl", "pt", "ct"):
-        d[slot] = _file_state(store.root / inv[slot], kind)
+        d[slot] = _file_state(fm[slot], kind)
     known = set(store.names)
     absent = ["absent"] * 4
     d["rec"], d["a"], d["b"] = list(absent), [0, *absent], [0, *absent]
@@ -1035,12 +1100,14 @@ def _fs_obs(store, kind):
             sub = store.root / ch
             d[ch] = [1 if sub.is_dir() else 0] + [_file_state(fc[x], kind, nc.Base) for x in ("pckl", "cpckl", "pt", "ct")]
             if sub.is_dir():
-                more = sorted(n for n in os.listdir(sub) if n not in store.child_names)
+                more = sorted(n for n in os.listdir(sub) if store._role(store.child_names, n) is None)
                 if more:
                     d.setdefault("extra_sub", []).extend(f"{ch}/{n}" for n in more)
     extra = []
     if store.root.is_dir():
-        extra = sorted(n for n in os.listdir(store.root) if n not in known)
+        tables = [store.names] + ([store.rec_names] if (store.nested or store.two_names) else [])
+        extra = sorted(n for n in os.listdir(store.root)
+                       if n not in known and all(store._role(t, n) is None for t in tables))
     d["extra"] = extra + d.pop("extra_sub", [])
     return d
 
@@ -1164,7 +1231,7 @@ def _valid(op, kind="wf", fname="default"):
     if op[0] == "at" and len(op) >= 3 and op[1] == "nb":
         # the neighbouring explicit name exists in the dotted layouts, for every graph kind
         rest = op[2:]
-        return fname in DOTTED and (rest in (["load"], ["delete"]) or _flat_valid(rest))
+        return fname in PAIRS and (rest in (["load"], ["delete"]) or _flat_valid(rest))
     if _is_tree_op(op):
         # nested nodes, checkpoints and recovery files exist for the Workflow graph under its default location
         if kind != "wf" or fname != "default":
@@ -1497,7 +1564,8 @@ def nontrivial(case, r):
 
 def model_input(case, impl=None):
     kind = case.get("graph", "wf")
-    lines = ["layout dotted"] if (case.get("fname") in DOTTED) else []
+    # `dotted`: before 84ba7a5 the two names were ONE file (variants I..C); `pair`: two unrelated names in every variant
+    lines = ["layout dotted"] if (case.get("fname") in DOTTED) else ["layout pair"] if (case.get("fname") in GLOBBY) else []
     for op in case["ops"]:
         if _is_tree_op(op) and _valid(op, kind, _layout(case)):
             flat = [str(x) for x in op]
@@ -1656,7 +1724,8 @@ def oracle(case, r):
     # per store: version of the newest completed save since the last delete, and the versions of interrupted saves
     # (serialisable content) after it
     prom = {w: {"exp": None, "inf": set()} for w in ("main", *STORES, "nb")}
-    dotted = case.get("fname") in DOTTED
+    dotted = case.get("fname") in PAIRS
+    layout_tag = "dotted" if case.get("fname") in DOTTED else "glob"
     default = case["fname"] == "default"
     prev_fs = None
     for k, rec in enumerate(r.get("recs", [])):
@@ -1700,7 +1769,7 @@ def oracle(case, r):
             more = {} if which == "main" else {"store": which}
             if dotted:
                 # two names that differ by a dotted tail: was it an op under the OTHER name that did this
-                more = {**more, "layout": "dotted", "cross": "same-name" if mine else "other-name"}
+                more = {**more, "layout": layout_tag, "cross": "same-name" if mine else "other-name"}
             wtrig = trig if mine else f"{trig}@{target}"
             nw = len(fails)
             # clause 1 / 3: the last completed save (or a later, fully written, interrupted one) is what loads
@@ -1881,7 +1950,7 @@ def extended_search(rng, findings):
         for g, fn in [(g, "default") for g in GRAPHS] + [("wf", "explicit")]:
             al = _alphabet(g, maxk) + _nf_alphabet(maxk)
             yield [_case(g, fn, _number([a, b])) for a in al if a[0] in writes for b in al]
-        for fn, g in (("dotted", "wf"), ("dotted5", "fn")):
+        for fn, g in (("dotted", "wf"), ("dotted5", "fn"), ("glob", "wf"), ("globstar", "fn"), ("globq", "fac")):
             al = [x for x in _alphabet(g, maxk) if not (x[0] == "foreign" and len(x) == 3)] + _nb_alphabet()
             yield [_case(g, fn, _number([a, b])) for a in al for b in al]
         both = _tree_alphabet() + _alphabet("wf", maxk)
